@@ -19,11 +19,15 @@ let drv_set () =
     | ["bchar"; v] -> bops := BChar (List.hd (str_tok v)) :: !bops
     | ["bstr"; v] -> bops := BStr (str_tok v) :: !bops
     | ["bset"; n] -> bops := BSetLen (nat_of_int (int_of_string n)) :: !bops
-    | ["bhash"] -> bops := BHash :: !bops
-    | ["bend"] ->
+    | ["bhash"] ->
+        bops := BHash :: !bops;
         let (hs, _) = buf_run (List.rev !bops) buf_empty in
-        List.iter (fun h -> Printf.printf "bh %s\n" (string_of_n h)) hs;
-        bops := []
+        Printf.printf "bh %s\n" (string_of_n (List.nth hs (List.length hs - 1)))
+    | ["bq"] ->
+        (* the buffer's own view (with whatever hash it has cached) used as the key of a query *)
+        let (_, b) = buf_run (List.rev !bops) buf_empty in
+        Printf.printf "bc %d\n" (int_of_nat (get_count b.b_str !s))
+    | ["bend"] -> bops := []
     | _ -> failwith ("set: bad line: " ^ String.concat " " toks))
 
 (* ---------- linq driver ---------- *)
